@@ -1,5 +1,5 @@
 (* Correspondence runner for C17.  The harness runs the DEAP program `modelga` (harness/c17_families.py:
-   tools.selTournament, algorithms.varAnd, tools.cxOnePoint, tools.mutFlipBit, HallOfFame, MultiStatistics,
+   tools.selTournament, algorithms.varAnd / varOr, tools.cxOnePoint, tools.mutFlipBit, HallOfFame, MultiStatistics,
    Logbook, toolbox.map) in fresh interpreter processes on an explicit draw list and writes, for every
    generation boundary, the token list of the objects it holds (the Python mirror of `save`).  check
    recomputes every boundary with the model:
@@ -23,22 +23,22 @@ Definition sched_of (tbl : list (Z * list nat)) : schedule := fun g n =>
   end.
 
 Inductive case :=
-| CRun (P : params) (pop0 : list (list bool)) (hofmax : Z) (ngen : nat) (scheds : list (Z * list nat))
+| CRun (P : params) (pop0 : list (list bool)) (hofmax : Z) (loop : Z) (ngen : nat) (scheds : list (Z * list nat))
        (obs : list (list Z))
-| CResume (P : params) (pop0 : list (list bool)) (hofmax : Z) (ngen k : nat) (ckpt : list Z)
+| CResume (P : params) (pop0 : list (list bool)) (hofmax : Z) (loop : Z) (ngen k : nat) (ckpt : list Z)
           (obs : list (list Z))
 | CPmap (P : params) (sched : list nat) (xs : list (list bool)) (results : list (list Z))
 | COrder (w : nat) (delays : list Z).
 
 Definition check (c : case) : bool :=
   match c with
-  | CRun P pop0 hofmax ngen scheds obs =>
+  | CRun P pop0 hofmax loop ngen scheds obs =>
       let s0 := init_state pop0 hofmax in
-      zll_eqb (map save (trace (step P (sched_of scheds)) (gens_upto ngen) s0)) obs
-  | CResume P pop0 hofmax ngen k ckpt obs =>
+      zll_eqb (map save (trace (step P (sched_of scheds)) (gens_of loop ngen) s0)) obs
+  | CResume P pop0 hofmax loop ngen k ckpt obs =>
       let s0 := init_state pop0 hofmax in
-      let g1 := firstn (S k) (gens_upto ngen) in
-      let g2 := skipn (S k) (gens_upto ngen) in
+      let g1 := firstn (S k) (gens_of loop ngen) in
+      let g2 := skipn (S k) (gens_of loop ngen) in
       let sk := run (step P serial) g1 s0 in
       zl_eqb (save sk) ckpt &&
       match restore ckpt with
@@ -48,7 +48,7 @@ Definition check (c : case) : bool :=
       (* and the model's own kill/resume agrees with its uninterrupted run *)
       match resume_run P serial g1 g2 s0 with
       | None => false
-      | Some sf => zl_eqb (save sf) (save (run (step P serial) (gens_upto ngen) s0))
+      | Some sf => zl_eqb (save sf) (save (run (step P serial) (gens_of loop ngen) s0))
       end
   | CPmap P sched xs results =>
       is_perm_of_seq sched (length xs) &&
